@@ -373,6 +373,7 @@ class PersLandscapeExact(PersLandscape):
         self.critical_pairs = [item[1:-1] for item in L]
         if _verif:
             self._verif_shortcut_fired = _verif_shortcut_fired
+        return self.critical_pairs
 
     def compute_landscape_by_depth(self, depth: int) -> list:
         """
